@@ -20,7 +20,7 @@ META = {
             "Non-trivial = type has a container or encoding > 1 byte; "
             "distinct = hash of (type name, bytes).",
     "reach": {"oracle_comparisons": 500, "foreign_bytes_decoded": 500,
-              "strings:non_ascii": 50, "#type_names_used": 20},
+              "strings:non_ascii": 50, "#type_names_used": 20, "failed_encodes": 100},
     "assumptions": [
         "gtmon/refcodec.py states the documented format correctly (written "
         "from include/gtirb/AuxData.hpp and AuxData.md, shares no code with "
@@ -73,6 +73,8 @@ def run(ctx):
             tn = reftypes.show(t)
             case.ops = [{"type": tn, "value": auxgen.describe(v, t)}]
             ctx.count("cases")
+            if rnd.random() < 0.08:
+                mon.failed_encode(case, t, v)
             raw = mon.check_format(case, t, v, pool)
             note_coverage(ctx, t, v, raw)
             if t[1] or len(raw) > 1:
